@@ -529,6 +529,9 @@ def r7_plumbing(ctx, m, me) -> None:
     seen = set()
     for q in ps:
         known = [k for t, k in q.tests if u(t) == f"{root} in self.link_names"]
+        # (names are strings -- the only store files str(..), checked below -- so "no entry" may also be asked as `.get(root) is None`)
+        known += [k for t, k in q.tests if u(t) == f"self.link_names.get({root}) is not None"]
+        known += [not k for t, k in q.tests if u(t) == f"self.link_names.get({root}) is None"]
         st = q.find_effect(f"self.link_names[{root}] = E_v")
         if not known and q.kind == "return" and not q.tests and unold(q.value) == f"self.link_names.setdefault({root}, str(len(self.link_names)))":
             # dict.setdefault: the recorded name when there is one, else the fresh name is recorded and answered
@@ -538,7 +541,7 @@ def r7_plumbing(ctx, m, me) -> None:
             ok = False
         elif known[0]:
             seen.add("known")
-            ok = ok and not st and q.value_text() == f"self.link_names[{root}]"
+            ok = ok and not st and q.value_text() in (f"self.link_names[{root}]", f"self.link_names.get({root})")
         else:
             seen.add("fresh")
             ok = ok and len(st) == 1 and st[0][2]["E_v"] == "str(len(self.link_names))" and unold(q.value) in ("str(len(self.link_names))", f"self.link_names[{root}]")
